@@ -69,3 +69,12 @@ Print Assumptions C01_sink_flat.
 Print Assumptions C01_finalize_flat.
 Print Assumptions C01_assembly_irrelevant.
 Print Assumptions C01_same_stages_same_filter.
+
+(* No false alarm: the boolean reading of this property that the correspondence check evaluates on the IMPLEMENTATION's
+   outputs (Check/C01.v, verdict bit 2) can never fail on outputs that agree with the model (bit 1 clear); side conditions,
+   where there are any, are boolean and say which recorded observations the model comparison does not cover. *)
+From Coq Require Import NArith.
+From Signalo Require Base.Report Check.C01 Proofs.Sound_C01.
+Theorem C01_checker_no_false_alarm : forall c : Signalo.Check.C01.case, N.land (Signalo.Base.Report.code (Signalo.Check.C01.check c)) 3 <> 2%N.
+Proof. exact Signalo.Proofs.Sound_C01.C01_check_sound. Qed.
+Print Assumptions C01_checker_no_false_alarm.
